@@ -192,9 +192,13 @@ def _gen_expr(p, a, b, G, n):
     return "ecdsa.ellipticcurve.PointJacobi(ecdsa.ellipticcurve.CurveFp(%d, %d, %d, 1), %d, %d, 1, %d, generator=True)" % (p, a, b, G[0], G[1], n)
 
 
-def _pub_expr(c, d):
+def _pub_expr(c, d, legacy=False):
     p, a, b, G, n = c
     Q = EC.mul(d, G, p, a)
+    if legacy:
+        # keys over the legacy affine class: Public_key.verifies / Private_key.sign take their `else` branches (no mul_add)
+        cf = "ecdsa.ellipticcurve.CurveFp(%d, %d, %d, 1)" % (p, a, b)
+        return "ecdsa.ecdsa.Public_key(ecdsa.ellipticcurve.Point(%s, %d, %d, %d), ecdsa.ellipticcurve.Point(%s, %d, %d, %d))" % (cf, G[0], G[1], n, cf, Q[0], Q[1], n)
     g = _gen_expr(p, a, b, G, n)
     return "ecdsa.ecdsa.Public_key(%s, ecdsa.ellipticcurve.PointJacobi(ecdsa.ellipticcurve.CurveFp(%d, %d, %d, 1), %d, %d, 1, %d))" % (g, p, a, b, Q[0], Q[1], n)
 
@@ -211,7 +215,7 @@ def spec_verifies(c, d, e, r, s):
 def _ver_check(self, args, fn=None):
     c, d, e, r, s = args["curve"], args["d"], args["e"], args["r"], args["s"]
     ns = {"ecdsa": __import__("ecdsa")}
-    pub = eval(_pub_expr(c, d), ns)
+    pub = eval(_pub_expr(c, d, args.get("legacy", False)), ns)
     import ecdsa.ecdsa as em
     exp = spec_verifies(c, d, e, r, s)
     try:
@@ -227,7 +231,7 @@ def _ver_check(self, args, fn=None):
 
 
 def _ver_positional(self, args):
-    return [Recipe(_pub_expr(args["curve"], args["d"])), args["e"], Recipe("ecdsa.ecdsa.Signature(%d, %d)" % (args["r"], args["s"]))]
+    return [Recipe(_pub_expr(args["curve"], args["d"], args.get("legacy", False))), args["e"], Recipe("ecdsa.ecdsa.Signature(%d, %d)" % (args["r"], args["s"]))]
 
 
 def _ver_domain(tier, seed):
@@ -238,6 +242,8 @@ def _ver_domain(tier, seed):
                 for r in range(-1, n + 3):
                     for s in range(-1, n + 3):
                         yield dict(curve=c, d=d, e=e, r=r, s=s)
+                        if d <= 2 and e in (1, n + 3):
+                            yield dict(curve=c, d=d, e=e, r=r, s=s, legacy=True)
 
 
 _vc = REGISTRY[ECDSA + "Public_key.verifies"]
@@ -246,8 +252,8 @@ _vc.positional = _ver_positional.__get__(_vc)
 _vc.domain = _ver_domain
 
 
-def _priv_expr(c, d):
-    return "ecdsa.ecdsa.Private_key(%s, %d)" % (_pub_expr(c, d), d)
+def _priv_expr(c, d, legacy=False):
+    return "ecdsa.ecdsa.Private_key(%s, %d)" % (_pub_expr(c, d, legacy), d)
 
 
 def _sign_check(self, args, fn=None):
@@ -256,7 +262,7 @@ def _sign_check(self, args, fn=None):
     if not 1 <= k <= n - 1:
         return None
     ns = {"ecdsa": __import__("ecdsa")}
-    priv = eval(_priv_expr(c, d), ns)
+    priv = eval(_priv_expr(c, d, args.get("legacy", False)), ns)
     import ecdsa.ecdsa as em
     R = EC.mul(k, G, p, a)
     r = R[0] % n
@@ -281,7 +287,7 @@ def _sign_check(self, args, fn=None):
 
 
 def _sign_positional(self, args):
-    return [Recipe(_priv_expr(args["curve"], args["d"])), args["e"], args["k"]]
+    return [Recipe(_priv_expr(args["curve"], args["d"], args.get("legacy", False))), args["e"], args["k"]]
 
 
 def _sign_domain(tier, seed):
@@ -291,6 +297,8 @@ def _sign_domain(tier, seed):
             for k in range(1, n):
                 for e in (0, 1, 3, n - 1, n + 2, 2 ** 33 + 1):
                     yield dict(curve=c, d=d, e=e, k=k)
+                if d <= 2:
+                    yield dict(curve=c, d=d, e=3, k=k, legacy=True)       # keys over the legacy affine Point class
 
 
 _sc = REGISTRY[ECDSA + "Private_key.sign"]
